@@ -715,6 +715,36 @@ func (e *Engine) dispatch(s *State, f *Frame, fn *ssa.Function, args []Value, bi
 	case "bytes.TrimRight", "bytes.TrimLeft", "bytes.Trim", "bytes.TrimSpace", "strings.TrimRight", "strings.TrimLeft", "strings.Trim", "strings.TrimSpace",
 		"bytes.TrimPrefix", "bytes.TrimSuffix", "strings.TrimPrefix", "strings.TrimSuffix", "bytes.TrimFunc", "bytes.TrimRightFunc", "bytes.TrimLeftFunc":
 		e.trim(s, name, args, x, site)
+	case "unicode/utf8.RuneCountInString", "unicode/utf8.RuneCount", "unicode/utf8.ValidString", "unicode/utf8.Valid":
+		var d *Bytes
+		if sv, ok := args[0].(*StringV); ok {
+			d = sv.B
+		} else {
+			d = sliceContent(s, args[0].(*SliceV))
+		}
+		cnt, valid, ok := utf8Scan(d)
+		if !ok {
+			panic(engineUnsupported(name + " on a text longer than the modelled 160 bytes"))
+		}
+		if strings.Contains(name, "Valid") {
+			set(valid)
+		} else {
+			set(cnt)
+		}
+	case "unicode/utf8.DecodeRuneInString", "unicode/utf8.DecodeRune":
+		var d *Bytes
+		if sv, ok := args[0].(*StringV); ok {
+			d = sv.B
+		} else {
+			d = sliceContent(s, args[0].(*SliceV))
+		}
+		r, w := utf8First(d)
+		set(TupleV{r, w})
+	case "unicode/utf8.RuneLen":
+		r := args[0].(*Term)
+		sur := And(Le(C(32, 0xD800), r, true), Le(r, C(32, 0xDFFF), true))
+		set(Ite(Lt(r, C(32, 0), true), CI(-1), Ite(Lt(r, C(32, 0x80), true), CI(1), Ite(Lt(r, C(32, 0x800), true), CI(2),
+			Ite(sur, CI(-1), Ite(Lt(r, C(32, 0x10000), true), CI(3), Ite(Le(r, C(32, 0x10FFFF), true), CI(4), CI(-1))))))))
 	case "hash/crc32.ChecksumIEEE", "hash/crc32.Checksum":
 		// Checksum(data, tab): the table argument is taken to be the IEEE table (the only one this repository uses)
 		sl := args[0].(*SliceV)
@@ -1421,6 +1451,9 @@ func (e *Engine) mergeFinals(basePC []*Term, nAlloc int, finals []*State) []*Sta
 		if !e.deadline.IsZero() && time.Now().After(e.deadline) {
 			// out of time: do not merge further (the caller sees the remaining states as cut)
 			fin.cut = "item time budget exceeded"
+		}
+		if memExceeded.Load() && fin.cut == "" {
+			fin.cut = "memory budget exceeded"
 		}
 		c := And(fin.pc[base:]...)
 		merged := false
